@@ -454,6 +454,10 @@ func fepFixedCases() []FepIn {
 		// reorg that drops the block in which the greatest root was recorded, the new fork injects it later
 		{Leaves: lv(3), Inj: []FepInj{{B: 2, G: 0}, {B: 5, G: 1}}, Segs: []FepSeg{{Polls: []FepPoll{{T: 3, L1: 3}, {T: 6, L1: 3}}},
 			{Reorg: &FepReorg{B: 5, Inj: []FepInj{{B: 9, G: 1}}}, Polls: []FepPoll{{T: 7, L1: 3}, {T: 10, L1: 3}}}}, Queries: q(3)},
+		// long runs of L1 info tree leaves that are never injected on this L2 (130, then 119), each followed by an injected one:
+		// a downloader that looks at the leaves in batches has to get past a whole batch without a hit
+		{Leaves: lv(260), Inj: []FepInj{{B: 3, G: 130}, {B: 6, G: 250}}, Segs: []FepSeg{{Polls: []FepPoll{{T: 4, L1: 260}, {T: 5, L1: 260}, {T: 7, L1: 260}}},
+			{Polls: []FepPoll{{T: 8, L1: 260}, {T: 9, L1: 260}}}}, Queries: []uint32{0, 1, 99, 100, 101, 130, 131, 200, 250, 251, 260}},
 		// lagging L1 info tree syncer: root injected at block 2 is not listed at the first poll
 		{Leaves: lv(2), Inj: []FepInj{{B: 2, G: 1}}, Segs: []FepSeg{{Polls: []FepPoll{{T: 3, L1: 1}, {T: 5, L1: 2}}}}, Queries: q(2)},
 	}
